@@ -11,7 +11,7 @@ Definition FUEL0 := 2000.   (* the fuel the generated case files run the model w
 
 (* ---------- observations ---------- *)
 Inductive rk := KNever | KOnce | KMany.
-Definition kind_of (e : effect) : rk := match e_res e with RNever => KNever | ROnce _ => KOnce | RMany _ => KMany end.
+Definition kind_of (e : effect) : rk := match e_res e with RNever => KNever | ROnce _ | RLegacy _ => KOnce | RMany _ => KMany end.
 Record oeff := mkOE { oe_tag : nat; oe_val : nat; oe_maps : list nat; oe_kind : rk }.
 Definition oeff_of (e : effect) := mkOE (e_tag e) (e_val e) (e_maps e) (kind_of e).
 Inductive obs :=
@@ -54,6 +54,9 @@ Definition resolve_req (e : effect) (v : nat) (H : heap) : nat * effect * heap :
   | ROnce ch => let (_, H1) := chan_send ch v H in
                 (0, mkEff (e_tag e) (e_val e) (e_maps e) RNever, chan_drop_tx ch H1)
   | RMany ch => let (ok, H1) := chan_send ch v H in ((if ok then 0 else 2), e, H1)
+  | RLegacy ch =>
+      (* the closure upgrades its weak reference: if the future is gone nothing happens; Ok either way *)
+      let (_, H1) := chan_send ch v H in (0, mkEff (e_tag e) (e_val e) (e_maps e) RNever, H1)
   end.
 
 Definition set_nth {A} (i : nat) (x : A) (l : list A) : list A :=
@@ -163,7 +166,7 @@ Fixpoint xrun_task (fuel : nat) (q : nat) (k : core) : option core :=
   | Some cid =>
     match poll_next FUEL cid (WExec q) (k_H k) with
     | None => None
-    | Some (PNEffect e, H1) => xrun_task f q (mkC H1 (k_spawn k) (k_slab k) (k_events k) (k_out k ++ [e]) (k_log k) (k_reqs k))
+    | Some (PNEffect e, H1) => xrun_task f q (mkC (push_hout e H1) (k_spawn k) (k_slab k) (k_events k) (k_out k) (k_log k) (k_reqs k))
     | Some (PNEvent e, H1) => xrun_task f q (mkC H1 (k_spawn k) (k_slab k) (k_events k ++ [e]) (k_out k) (k_log k) (k_reqs k))
     | Some (PNDone, H1) =>
         Some (mkC (drop_cmd DF cid H1) (k_spawn k) (updd None q (fun _ => None) (k_slab k)) (k_events k) (k_out k) (k_log k) (k_reqs k))
@@ -213,8 +216,9 @@ Fixpoint process (fuel : nat) (hs : handlers) (k : core) : option core :=
   end end end.
 
 Definition take_out (code : nat) (k : core) : obs * core :=
-  (OCall code (map oeff_of (k_out k)) (k_log k),
-   mkC (k_H k) (k_spawn k) (k_slab k) (k_events k) [] (k_log k) (k_reqs k ++ map (fun e => mkRq e false) (k_out k))).
+  let out := hout (k_H k) in    (* self.requests.drain() *)
+  (OCall code (map oeff_of out) (k_log k),
+   mkC (set_hout [] (k_H k)) (k_spawn k) (k_slab k) (k_events k) [] (k_log k) (k_reqs k ++ map (fun e => mkRq e false) out)).
 
 Definition cstep (hs : handlers) (a : action) (k : core) : option (obs * core) :=
   match a with
